@@ -209,6 +209,7 @@ def corr_evalH(run, cases, rotors, preps, poison=0.0):
     import quaternionic
     h = helpers()
     b = Batch(run, "evaluate-Horner")
+    b2 = Batch(run, "evaluate-Horner-generated-kernel")
     for (L, P, s, eM, f) in cases:
         # the calculator's own ell_min (anything up to |s| is accepted by evaluate) must not matter: same model line
         emin = 0 if (len(b.lines) // max(len(rotors), 1)) % 2 == 0 else min(abs(s), L)
@@ -227,7 +228,9 @@ def corr_evalH(run, cases, rotors, preps, poison=0.0):
             pw = h["cpowi"](np.complex128(p["z"][2]).conjugate(), s)
             b.add(f"evalH {L} {w.mp_max} {s} {eM} {' '.join(fbits(x) for x in R)} {fbits(pw.real)} {fbits(pw.imag)} {fbits(prev.real)} {fbits(prev.imag)} {fbits(poison)} " + cx_tokens(fa),
                   arr_bits(np.array([v])), {"L": L, "P": P, "s": s, "ell_max_modes": eM, "R": R, "stratum": lab}, f"{lab}|s|={abs(s)}" if abs(s) >= 3 else lab)
-    return b.flush()
+            b2.add(f"genevalH {L} {w.mp_max} {s} {eM} {' '.join(fbits(x) for x in R)} {fbits(pw.real)} {fbits(pw.imag)} {fbits(prev.real)} {fbits(prev.imag)} {fbits(poison)} " + cx_tokens(fa),
+                   arr_bits(np.array([v])), {"L": L, "P": P, "s": s, "ell_max_modes": eM, "R": R, "stratum": lab, "model": "generated"}, f"{lab}|s|={abs(s)}" if abs(s) >= 3 else lab)
+    return b.flush() + b2.flush()
 
 
 def corr_rotH(run, cases, rotors, preps, poison=0.0):
